@@ -152,8 +152,11 @@ OVF = ["--unsigned-overflow-check", "--conversion-check"]
 
 
 def sunit(name, define, enforce=None, funcs=(), doc="", kind="proof", defines=(), flags=OVF, min_obligations=5):
+    # CaDiCaL: MiniSat hangs on the pointer arithmetic of ctx.init as soon as the stack-top computation is spelled with named
+    # temporaries (a behaviour-preserving edit); CaDiCaL decides both spellings in seconds
     return Unit(name, "stack.c", defines=[define] + list(defines), enforce=enforce, lifts=stack_lifts(), kind=kind,
-                funcs=list(funcs), doc=doc, extra_flags=list(flags), min_obligations=min_obligations)
+                funcs=list(funcs), doc=doc, extra_flags=list(flags), min_obligations=min_obligations,
+                solver=["--sat-solver", "cadical"] if name.startswith("ctx.init") else None)
 
 
 UNITS = [
